@@ -6,7 +6,7 @@ package goverter
 
 // every output file: create the directory (0755), then write the whole content (0644)
 //@ func writeFiles
-//@   props C09 C15 C17
+//@   props C09 C15 C17 C13
 //@   propagates
 //@   maprange 1 unordered-result paths
 //@   at@C15 call os.MkdirAll#* assert arg0 == filepath.Dir(path) && arg1 == 0o755
@@ -14,7 +14,7 @@ package goverter
 
 // ---- C17: generate everything in memory, write only after every converter succeeded ----
 //@ func GenerateConverters
-//@   props C17 C15
+//@   props C17 C15 C13
 //@   propagates
 //@   requires@C13 c != nil
 //@   at call writeFiles#1 assert err == nil
